@@ -5,6 +5,7 @@ import (
 	"go/types"
 	"strings"
 
+	"golang.org/x/tools/go/packages"
 	"golang.org/x/tools/go/ssa"
 )
 
@@ -14,21 +15,46 @@ import (
 // an "?…" element so that "⊆ allowed set" rules fail closed.
 
 type typeFlow struct {
-	c       *Ctx
-	memo    map[ssa.Value]map[string]bool
-	active  map[ssa.Value]bool
-	callers map[*ssa.Function][]ssa.CallInstruction
-	stores  map[string][]*ssa.Store // "pkg.Type.field" -> stores
-	built   bool
+	c           *Ctx
+	memo        map[ssa.Value]map[string]bool
+	active      map[ssa.Value]bool
+	activeElems map[ssa.Value]bool
+	callers     map[*ssa.Function][]ssa.CallInstruction
+	stores      map[string][]*ssa.Store // "pkg.Type.field" -> stores
+	built       bool
 	// MakeClosure / bound-method sites per function value target
 	fnValueUses map[*ssa.Function][]ssa.Value
 }
 
-func (c *Ctx) newTypeFlow() *typeFlow {
+func (c *Ctx) newTypeFlow() *typeFlow { return c.newTypeFlowScoped("") }
+
+// newTypeFlowScoped restricts the program to the import closure of one repo
+// package (rel, e.g. "gateway"): the gateway and the client library are
+// separate programs that share package transactions, and a field-based
+// analysis over both would merge what they store into the shared fields.
+func (c *Ctx) newTypeFlowScoped(rel string) *typeFlow {
+	var inScope map[string]bool
+	if rel != "" {
+		inScope = map[string]bool{}
+		var visit func(p *packages.Package)
+		visit = func(p *packages.Package) {
+			if p == nil || inScope[p.PkgPath] {
+				return
+			}
+			inScope[p.PkgPath] = true
+			for _, q := range p.Imports {
+				visit(q)
+			}
+		}
+		visit(c.ByPath[modPath+"/"+rel])
+	}
 	tf := &typeFlow{c: c, memo: map[ssa.Value]map[string]bool{}, active: map[ssa.Value]bool{},
 		callers: map[*ssa.Function][]ssa.CallInstruction{}, stores: map[string][]*ssa.Store{},
 		fnValueUses: map[*ssa.Function][]ssa.Value{}}
 	for _, f := range c.allRepoFuncs() {
+		if inScope != nil && !inScope[fnPkgPath(f)] {
+			continue
+		}
 		allInstrs(f, func(i ssa.Instruction) {
 			switch x := i.(type) {
 			case ssa.CallInstruction:
@@ -78,7 +104,7 @@ func (tf *typeFlow) flow(v ssa.Value, d int) map[string]bool {
 	if tf.active[v] {
 		return out
 	}
-	if d > 14 {
+	if d > 40 {
 		out["?depth:"+exprStr(v)] = true
 		return out
 	}
@@ -491,10 +517,18 @@ func (tf *typeFlow) freeVarCell(fv *ssa.FreeVar, d int) map[string]bool {
 // elems: element types of a slice/array/map value.
 func (tf *typeFlow) elems(v ssa.Value, d int) map[string]bool {
 	out := map[string]bool{}
-	if d > 14 {
+	if d > 40 {
 		out["?depth"] = true
 		return out
 	}
+	if tf.activeElems == nil {
+		tf.activeElems = map[ssa.Value]bool{}
+	}
+	if tf.activeElems[v] {
+		return out
+	}
+	tf.activeElems[v] = true
+	defer delete(tf.activeElems, v)
 	add := func(m map[string]bool) {
 		for k := range m {
 			out[k] = true
